@@ -1,13 +1,15 @@
 (* Correspondence checker for C01: finalized real chunks (templates + component table) and a
    context are run on Model/VM.v in the world of Model/WorldC01.v; the output text / error class is
-   compared with the real render (Tera::render, render_str, render_component). Additionally, on
-   every `strict` case (no `safe` filter, special-free literal text, autoescape on everywhere):
-   - the guarded world (Model/Taint.v guard_bodies) must give the same result: the body operand of
-     every RenderBodyComponent the real compiler emitted was minted by EndCapture (a body that was
-     NOT captured would still hold the raw poison and be refused);
-   - the hypotheses of C01_no_raw_data_when_autoescape_on are re-checked (tpl_ok, chunk_ok, ctx_ok)
+   compared with the real render (Tera::render, render_str, render_component). Additionally:
+   - on EVERY case every chunk that can run (template chunks, root chunks, block lineages,
+     component chunks) must satisfy the side condition of the C01 theorems,
+     Model/CapCheck.v bodies_from_capture: the body operand of every RenderBodyComponent the real
+     compiler emitted was pushed by EndCapture;
+   - on every `strict` case (no `safe` filter, special-free literal text, autoescape on everywhere)
+     the hypotheses of C01_no_raw_data_when_autoescape_on are re-checked (tpl_ok, chunk_ok, ctx_ok)
      and the model output must be clean. *)
-From TeraV Require Import Model.Value Model.Instr Model.VFormat Model.VM Model.World0 Model.Taint Model.WorldC01.
+From TeraV Require Import Model.Value Model.Instr Model.VFormat Model.VM Model.World0 Model.StackCheck Model.CapCheck
+     Model.Taint Model.WorldC01.
 Local Open Scope nat_scope.
 
 Inductive c01_mode :=
@@ -67,10 +69,14 @@ Definition hyps_ok (c : c01_case) : bool :=
   && forallb (fun nc => chunk_ok ok_html (snd (snd nc)) && def_ok_b (fst (snd nc))) (k_components c)
   && ctx_ok ok_html (k_ctx c).
 
+Definition bodies_ok (c : c01_case) : bool :=
+  forallb (fun nt => tpl_bodies_ok (snd nt)) (k_templates c)
+  && forallb (fun nc => bodies_from_capture (snd (snd nc))) (k_components c).
+
 Definition check_c01 (c : c01_case) : bool :=
   let m := model_c01 c in
   res_eqb str_eqb m (k_impl c)
+  && bodies_ok c
   && (if k_strict c
-      then res_eqb str_eqb (run_case (guard_bodies ok_html (world_of c)) c) m
-           && hyps_ok c && match m with ROk out => clean ok_html out | RErr _ => true end
+      then hyps_ok c && match m with ROk out => clean ok_html out | RErr _ => true end
       else true).
